@@ -9,7 +9,7 @@ THEOREMS = ["GrpcProofs.C24." + t for t in (
     "toRPCErr_is_status_or_nil_or_eof", "toRPCErr_nil_iff", "toRPCErr_eof_iff", "toRPCErr_idempotent",
     "restricted_table", "restricted_source_pinned", "restricted_becomes_internal", "status_kept", "filters_yield_status",
     "picker_error_outcome", "config_selector_error_is_status",
-    "retry_exhausted_sendmsg_counterexample", "retry_exhausted_keeps_status_partial",
+    "retry_exhausted_sendmsg_counterexample", "retry_exhausted_keeps_status_partial", "retry_backoff_ctx_done_is_status",
     "creds_error_is_status")]
 DESIGN_REF = "DESIGN.md section 8, C24"
 TECHNIQUE = ("Lean 4: structural induction over an inductive model of Go error values for toRPCErr; the A54 table by decide over all 17 "
@@ -27,8 +27,9 @@ LEVEL_TEXT = ("Machine-checked proof that the model of toRPCErr maps every error
 LEVEL_NOTE = ("Reading: 'carries a gRPC status code' = status.FromError succeeds on the returned error (errors.As semantics). Invoke and "
               "NewStream have no io.EOF exemption in the statement (a config selector returning io.EOF used to leak it: F24, fixed by "
               "2bdf416). An error whose status has code OK, or a code above 16, still 'carries a status' and is not judged. "
-              "public_api_errors_are_status over the full retry state machine (DESIGN) is not attempted: the return paths of "
-              "Invoke/NewStream/SendMsg/RecvMsg are covered by the e2e run only. Trusted: Lean kernel, the GoErr abstraction of Go error "
+              "public_api_errors_are_status over the full retry state machine (DESIGN) is not attempted: of the retry machine's own "
+              "return paths only shouldRetry's two error-producing branches are modelled (attempt limit reached; context done during the "
+              "backoff sleep), the remaining return paths of Invoke/NewStream/SendMsg/RecvMsg are covered by the e2e run only. Trusted: Lean kernel, the GoErr abstraction of Go error "
               "values (identity of sentinels, single-chain Unwrap), synctest.")
 GAP = "multi-error Unwrap() []error chains; errors returned by stats handlers/interceptors; the retry path's choice among several attempt errors"
 ASSUMPTIONS = ["errors.As follows a single Unwrap chain", "context/io sentinels are compared by identity"]
@@ -36,7 +37,7 @@ RULE = ("rpcerr: every terminal (nil, io.EOF, ErrUnexpectedEOF, ctx errors, ErrN
         "implementors with codes 0..20 and large ones, nil-status implementor, plain) under every wrapper chain of depth <= 3 over "
         "{%w, NewStreamError, ConnectionError}; IsRestrictedControlPlaneCode on 0..40 and large codes. s_rpcerr: each of those terminals "
         "and a sample of chains at the picker (failfast and wait-for-ready), config-selector, transport-creds, call-creds and dialer "
-        "sites, plus six stream scenarios and the retry-exhausted-on-SendMsg scenario (maxAttempts 2..5). An op is non-trivial unless its error spec is nil.")
+        "sites, plus six stream scenarios, the context ending (deadline / cancel) while Invoke, RecvMsg or SendMsg sits in the retry backoff sleep, and the retry-exhausted-on-SendMsg scenario (maxAttempts 2..5). An op is non-trivial unless its error spec is nil.")
 
 CODES = list(range(0, 21)) + [99, 2**31 - 1, 2**31, 2**32 - 1]
 BASIC = ["eof", "ueof", "ctxd", "ctxc", "nosub", "nilst", "plain"]
@@ -112,6 +113,9 @@ def gen(rng, tier):
         yield Case("s_rpcerr", sites[i:i + chunk], "sites-%d" % (i // chunk))
     scen = ["clean", "srvstop", "cancel", "deadline", "srvplain"] + ["srvst.%d" % c for c in list(range(0, 18)) + [42, 99]]
     yield Case("s_rpcerr", ["stream " + s for s in scen], "streams")
+    # the context ends (deadline / cancel) while the named API call sits in the retry backoff sleep
+    yield Case("s_rpcerr", ["stream retryctx.%s.%s" % (api, how) for api in ("invoke", "recv", "send") for how in ("deadline", "cancel")],
+               "retryctx")
     # F31 (a6's side finding): attempt limit hit on the SendMsg path
     for k in (2, 3, 4, 5):
         yield Case("s_rpcerr", ["stream sendretry.%d" % k], "sendretry-%d" % k)
